@@ -62,9 +62,11 @@ def work(task):
             out["error"] = list(rep.error)
         shard, nshards = opts.get("shard", (0, 1))
         todo = [ob for i, ob in enumerate(rep.obligations) if i % nshards == shard]
+        if opts.get("only"):
+            todo = [ob for ob in todo if opts["only"] in ob.name]
         brep = None
         for ob in todo:
-            verify.solve_obligation(ob, timeout_ms=opts.get("timeout_ms", 10000))
+            verify.solve_obligation(ob, timeout_ms=opts.get("timeout_ms", 10000), use_cli=not opts.get("no_cli"))
             rec = {"name": ob.name, "id": stable_id(ob.name), "kind": ob.kind, "status": ob.status, "backend": ob.backend,
                    "time_s": round(ob.time_s, 3), "line": ob.line, "note": ob.note}
             if ob.status in ("sat", "unknown") and ob.kind != "vacuity":
@@ -137,6 +139,10 @@ def main(argv=None):
     ap.add_argument("--no-evidence", action="store_true")
     ap.add_argument("--jobs", type=int, default=min(16, os.cpu_count() or 4))
     ap.add_argument("-v", action="store_true")
+    ap.add_argument("--only", default=None, help="dev: solve only obligations whose name contains this")
+    ap.add_argument("--fn", default=None, help="dev: only functions whose key contains this")
+    ap.add_argument("--timeout", type=int, default=None)
+    ap.add_argument("--no-cli", action="store_true")
     a = ap.parse_args(argv)
     t0 = time.time()
     prop = a.prop
@@ -158,10 +164,15 @@ def main(argv=None):
     opts = {"src": os.path.abspath(a.src) if a.src else None, "seed": seed,
             "timeout_ms": getattr(mod, "TIMEOUT_MS", 10000) * (3 if tier == "thorough" else 1),
             "native_tries": getattr(mod, "NATIVE_TRIES", {"quick": 300, "thorough": 20000})[tier],
-            "replay_tries": 3000 if tier == "quick" else 30000}
+            "replay_tries": 3000 if tier == "quick" else 30000, "only": a.only, "no_cli": a.no_cli}
+    if a.timeout:
+        opts["timeout_ms"] = a.timeout
+    if a.only or a.fn:
+        opts["native_tries"] = 0
+        a.no_evidence = True
     tasks = []
     for key, c in CONTRACTS.items():
-        if c.kind == "verify" and prop in c.props:
+        if c.kind == "verify" and prop in c.props and (not a.fn or a.fn in key):
             n = nshards.get(key, 1)
             for sh in range(n):
                 tasks.append(("function", modname, key, prop, dict(opts, shard=(sh, n))))
